@@ -61,6 +61,17 @@ def catalogue(thorough=True):
     for M in (2, 4, 8, 16):
         for g in (True, False):
             out.append(Inst("dpsk%d_g%d" % (M, g), dpsk.DPSKModulator(M, gray_coding=g), dpsk.DPSKDemodulator(M, gray_coding=g), M.bit_length() - 1, g, True, False, Fraction(1, 2), "dpsk", params={"order": M, "gray": g}, memory=True))
+    # the same schemes reached through the alternative spellings of the constructor: the `gray_coded` alias, `bits_per_symbol`
+    # instead of the order, and the modulation registry
+    out.append(Inst("dpsk8_g0_alias", dpsk.DPSKModulator(8, gray_coded=False), dpsk.DPSKDemodulator(8, gray_coded=False), 3, False, True, False, Fraction(1, 2), "dpsk", params={"order": 8, "gray": False, "via": "gray_coded="}, memory=True))
+    out.append(Inst("dpsk4_g0_bps", dpsk.DPSKModulator(bits_per_symbol=2, gray_coded=False), dpsk.DPSKDemodulator(bits_per_symbol=2, gray_coded=False), 2, False, True, False, Fraction(1, 2), "dpsk", params={"order": 4, "gray": False, "via": "bits_per_symbol="}, memory=True))
+    try:
+        from kaira.modulations.registry import ModulationRegistry as _MR
+        out.append(Inst("dpsk16_g0_reg", _MR.create("dpskmodulator", order=16, gray_coded=False), _MR.create("dpskdemodulator", mode="demodulator", order=16, gray_coded=False), 4, False, True, False, Fraction(1, 2), "dpsk", params={"order": 16, "gray": False, "via": "registry"}, memory=True))
+        out.append(Inst("psk8_g0_reg", _MR.create("pskmodulator", order=8, gray_coding=False), _MR.create("pskdemodulator", mode="demodulator", order=8, gray_coding=False), 3, False, True, True, Fraction(1), "psk", params={"order": 8, "gray": False, "via": "registry"}))
+        out.append(Inst("qam16_g0_n1_reg", _MR.create("qammodulator", order=16, gray_coding=False, normalize=True), _MR.create("qamdemodulator", mode="demodulator", order=16, gray_coding=False, normalize=True), 4, False, True, True, Fraction(1, 2), "qam", params={"order": 16, "gray": False, "normalize": True, "via": "registry"}))
+    except Exception as _e:
+        REGISTRY_NOTE.append("registry instances not built: %s: %s" % (type(_e).__name__, _e))
     out.append(Inst("dbpsk", dpsk.DBPSKModulator(), dpsk.DBPSKDemodulator(), 1, False, True, False, Fraction(1, 2), "dpsk", params={"order": 2, "gray": False, "cls": "dbpsk"}, memory=True))
     out.append(Inst("dqpsk", dpsk.DQPSKModulator(), dpsk.DQPSKDemodulator(), 2, True, True, False, Fraction(1, 2), "dpsk", params={"order": 4, "gray": True, "cls": "dqpsk"}, memory=True))
     for norm in (True, False):
@@ -70,6 +81,9 @@ def catalogue(thorough=True):
         out.append(Inst("pi4_g%d_a" % g, m, pi4qpsk.Pi4QPSKDemodulator(), 2, g, True, False, Fraction(1), "pi4", table_attr="qpsk", params={"gray": g}, memory=True))
         out.append(Inst("pi4_g%d_b" % g, m, pi4qpsk.Pi4QPSKDemodulator(), 2, g, True, False, Fraction(1), "pi4", table_attr="qpsk_rotated", params={"gray": g}, memory=True))
     return out
+
+
+REGISTRY_NOTE = []
 
 
 def dmin2(pts):
